@@ -289,11 +289,11 @@ func ruleC08Commit(c *Ctx) {
 	fn := c.Anchor(rule, fRep+"createDisk")
 	if fn != nil {
 		R := NewRenderer(fn)
-		nh := "+" + fRep + "createNewHead($0,$0.info.Head,var(newSnapName),$3)#2 -nil ==0"
-		lk := "+" + fRep + "linkDisk($0,$0.info.Head,var(newSnapName)) -nil ==0"
-		sm := "+" + fRep + `encodeToFile($0,$0.diskData[var(newSnapName)],(var(newSnapName) + ".meta")) -nil ==0`
-		vm := "+" + fRep + `encodeToFile($0,&var(info),"volume.meta") -nil ==0`
-		noSnap := `+"" -var(newSnapName) ==0`
+		nh := "+" + fRep + "createNewHead($0,$0.info.Head,var(string#1),$3)#2 -nil ==0"
+		lk := "+" + fRep + "linkDisk($0,$0.info.Head,var(string#1)) -nil ==0"
+		sm := "+" + fRep + `encodeToFile($0,$0.diskData[var(string#1)],(var(string#1) + ".meta")) -nil ==0`
+		vm := "+" + fRep + `encodeToFile($0,&var(replica.Info),"volume.meta") -nil ==0`
+		noSnap := `+"" -var(string#1) ==0`
 		c.Guard(rule, fn, CallsTo(fn, fRep+"linkDisk"), "linkDisk", nil, atom("new head created", nh))
 		var encSnap, encVol []ssa.Instruction
 		for _, e := range CallsTo(fn, fRep+"encodeToFile") {
@@ -310,7 +310,7 @@ func ruleC08Commit(c *Ctx) {
 		}
 		var doneT []ssa.Instruction
 		eachInstr(fn, func(in ssa.Instruction) {
-			if s, ok := in.(*ssa.Store); ok && R.V(s.Addr) == "&var(done)" && R.V(s.Val) == "true" {
+			if s, ok := in.(*ssa.Store); ok && R.V(s.Addr) == "&var(bool)" && R.V(s.Val) == "true" {
 				doneT = append(doneT, in)
 			}
 		})
@@ -335,10 +335,10 @@ func ruleC08Commit(c *Ctx) {
 			for _, rm := range CallsTo(cl, fRep+"rmDisk") {
 				s := callRender(CR, rm)
 				switch {
-				case strings.Contains(s, "^var(oldHead)") || strings.Contains(s, "info.Head"):
-					c.Guard(rule, cl, []ssa.Instruction{rm}, "cleanup removes old head", nil, atom("only after the commit (done)", "^var(done)"))
+				case strings.Contains(s, "^var(string#0)") || strings.Contains(s, "info.Head"):
+					c.Guard(rule, cl, []ssa.Instruction{rm}, "cleanup removes old head", nil, atom("only after the commit (done)", "^var(bool)"))
 				default:
-					c.Guard(rule, cl, []ssa.Instruction{rm}, "cleanup removes new files", nil, atom("only when the commit did not happen (!done)", "!^var(done)"))
+					c.Guard(rule, cl, []ssa.Instruction{rm}, "cleanup removes new files", nil, atom("only when the commit did not happen (!done)", "!^var(bool)"))
 				}
 			}
 		}
